@@ -122,6 +122,14 @@ package file
 // callee may fail on any call): the temporary file is renamed over the current
 // one only after it was opened, completely written and synced without error.
 
+// The snapshot of the job table and the write buffer are shared by all savers of
+// one offsetDB and reused: both are touched only under offsetDB.mu (two overlapping
+// saves would otherwise write a job list that never existed).
+
+//@ monitor offsetDB.mu
+//@   self o
+//@   protects jobsSnapshot
+
 //@ func (*offsetDB).save
 //@   ghost opened bool = false
 //@   ghost wrote bool = false
@@ -150,6 +158,7 @@ package file
 //@   callee Close()
 //@     pure
 //@   callee snapshotJobs(m, j)
+//@     requires held(o.mu)
 //@     preserves offsetDB
 //@   callee Uint64()
 //@     pure
